@@ -63,6 +63,16 @@ def generate(run_seed, tier):
         frames = [wire.gen_raw_frame(rw, p_hot) for _ in range(n)]
     else:
         frames = [wire.gen_skysense_frame(rw, p_hot) for _ in range(n)]
+    if rw.random() < 0.25 and len(frames) < 40:
+        # byte-identical frames back to back (a repeated reply, same stamp)
+        out = []
+        for f in frames:
+            out.append(f)
+            if rw.random() < 0.3:
+                out.append(dict(f))
+                if rw.random() < 0.3:
+                    out.append(dict(f))
+        frames = out[:44]
     st = wire.serialise(fmt, frames)
     L = len(st.data)
     segs = [{"cuts": []}]
@@ -203,6 +213,8 @@ def execute(sc, keep_log=False):
             if "24" in [f["body"][i:i + 2] for i in range(0, 28, 2)]:
                 stats.c["probe.dollar_in_skysense_payload"] += 1
                 break
+    if any(a == b for a, b in zip(sc["frames"], sc["frames"][1:])):
+        stats.c["probe.identical_frames_back_to_back"] += 1
     kinds = "".join(f.get("k", "L" if len(f.get("txt", f.get("body", ""))) == 28 else "S") for f in sc["frames"])
     for seg in sc["segs"]:
         for cuts in _expand(seg, L):
